@@ -16,7 +16,7 @@ class BoomBase(BaseException):
     """stands for KeyboardInterrupt / SystemExit / GeneratorExit leaving the block"""
 
 
-def do_op(c, kind, k, v):
+def do_op(c, kind, k, v, tag=None):
     if kind == 'set':
         return c.set(k, v)
     if kind == 'setf':
@@ -38,6 +38,12 @@ def do_op(c, kind, k, v):
         return c.push(v)
     if kind == 'pull':
         return c.pull()
+    if kind == 'clear':
+        return c.clear()
+    if kind == 'expire':
+        return c.expire()
+    if kind == 'evict':
+        return c.evict(tag)
     raise ValueError(kind)
 
 
@@ -61,6 +67,7 @@ def ob_block(w, P):
     keys = [x.key('key%d' % i) for i in range(len(ops))]
     vals = [x.s.v_int('val%d' % i, -2 ** 40, 2 ** 40) for i in range(len(ops))]
     raise_at = x.s.v_int('raise_at', 0, len(ops))  # == len(ops): the block completes
+    etag = x.opt_tag('etag') if 'evict' in ops else None
 
     def body():
         with c.transact():
@@ -69,9 +76,9 @@ def ob_block(w, P):
                     raise (BoomBase() if P.get('exc') == 'base' else Boom())
                 if nested:
                     with c.transact():
-                        do_op(c, kind, keys[i][0], vals[i])
+                        do_op(c, kind, keys[i][0], vals[i], etag)
                 else:
-                    do_op(c, kind, keys[i][0], vals[i])
+                    do_op(c, kind, keys[i][0], vals[i], etag)
     if P.get('crash'):
         # the process is killed at a symbolic event inside the block: all-or-nothing for the whole block, every committed
         # row keeps its value file (Ctx.call raises the kill outcome)
@@ -526,7 +533,10 @@ def jobs(tier):
         add('ob_block', 'C06,C08', weight=N * 2, must=['block_raised', 'prelude'], N=N, ops='delete', prelude=True, no_cull=True)
         add('ob_block', 'C06,C08', weight=N * 2, must=['block_raised', 'prelude'], N=N, ops='set+pop', prelude=True, no_cull=True)
         add('ob_block', 'C06,C08', weight=N * 2, must=['block_raised'], N=N, ops='setf', exc='base', nested=True, no_cull=True)
-        for ops in ('setf+delete', 'pop+setf', 'set+set', 'delete+set'):
+        # the batch removals (clear / expire / evict) inside a block: their file removals wait for the outer COMMIT too
+        for ops in ('clear+set', 'expire+set', 'evict+delete', 'setf+clear'):
+            add('ob_block', 'C06,C08,C03', weight=N * 2, must=['block_raised', 'block_committed'], N=N, ops=ops, no_cull=True)
+        for ops in ('setf+delete', 'pop+setf', 'set+set', 'delete+set', 'clear+set'):
             add('ob_block', 'C07,C06', weight=N * 30, must=['crashed'], N=N, ops=ops, crash=True, no_cull=True)
         for who in ('handle', 'thread'):
             add('ob_block_isolation', 'C06,C05', weight=N * 2, must=['intruded_inside'], N=N, who=who)
@@ -535,6 +545,6 @@ def jobs(tier):
     for who in ('handle', 'thread'):
         add('ob_block_files_intruded', 'C06,C14,C08', weight=8, must=['refused_inside', 'block_raised', 'block_committed'], N=1, who=who)
     add('ob_block_fanout', 'C06,C08', weight=8, must=['block_raised', 'block_committed'], nops=2)
-    add('ob_block_fanout', 'C06,C14', weight=20, must=['intruded_inside'], nops=1, intrude=True)
+    add('ob_block_fanout', 'C06,C14,C20,C15', weight=20, must=['intruded_inside'], nops=1, intrude=True)
     add('ob_block_fanout', 'C07,C06', weight=30, must=['crashed'], nops=2, crash=True)
     return out
